@@ -27,6 +27,12 @@ func main() {
 			fmt.Sscanf(os.Args[3], "%d", &n)
 		}
 		os.Exit(runner.SelfTestMain(os.Args[2], n))
+	case "selftest-replay":
+		n := 30
+		if len(os.Args) > 3 {
+			fmt.Sscanf(os.Args[3], "%d", &n)
+		}
+		os.Exit(runner.ReplayFidelityMain(os.Args[2], n))
 	case "genstats":
 		runs, blocks := 6, 30
 		if len(os.Args) > 3 {
